@@ -47,15 +47,21 @@ class CaseTimeout(Exception):
     pass
 
 class time_limit(object):
+    """watchdog for one case: `secs` of CPU time of this process (a loop that never ends burns CPU; a loaded machine
+    does not turn a slow case into a false "does not terminate"), with a wall-clock backstop of 30 x secs"""
     def __init__(self, secs):
         self.secs = secs
     def _h(self, signum, frame):
         raise CaseTimeout()
     def __enter__(self):
         self.old = signal.signal(signal.SIGALRM, self._h)
-        signal.setitimer(signal.ITIMER_REAL, self.secs)
+        self.oldp = signal.signal(signal.SIGPROF, self._h)
+        signal.setitimer(signal.ITIMER_REAL, self.secs * 30)
+        signal.setitimer(signal.ITIMER_PROF, self.secs)
     def __exit__(self, *a):
+        signal.setitimer(signal.ITIMER_PROF, 0)
         signal.setitimer(signal.ITIMER_REAL, 0)
+        signal.signal(signal.SIGPROF, self.oldp)
         signal.signal(signal.SIGALRM, self.old)
         return False
 
@@ -244,7 +250,7 @@ def eval_case(mod, case):
         with time_limit(tl):
             return mod.run_impl(case)
     except CaseTimeout:
-        return {'out': 'TIMEOUT', 'fail': {'kind': 'timeout', 'detail': 'no result within %.1fs' % tl}, 'sig': 'timeout'}
+        return {'out': 'TIMEOUT', 'fail': {'kind': 'timeout', 'detail': 'no result within %.1fs of CPU time' % tl}, 'sig': 'timeout'}
     except RecursionError:
         return {'out': 'RECURSION', 'fail': {'kind': 'recursion-error', 'detail': 'RecursionError'}, 'sig': 'recursion'}
     except Exception as e:
